@@ -11,8 +11,6 @@ module L = Stdlib.List
 module S = Stdlib.String
 
 let fixed = (try Sys.getenv "VERIF_C04_FIXED" with Not_found -> "") <> "0"
-(* VERIF_C04_BYHEIGHT_FIXED=1: the model of the proposed repair build/proposed-fixes/C04-2.diff (saturating window end) *)
-let byheight_fixed = (try Sys.getenv "VERIF_C04_BYHEIGHT_FIXED" with Not_found -> "") = "1"
 
 (* ---------- input ---------- *)
 let is_query t = t <> "" && t.[0] >= 'A' && t.[0] <= 'Z'
@@ -86,7 +84,7 @@ let model_query (s : Store.store) (q : string) : string =
        if not (is_num h) then "400 ErrInvalidHeightParam"
        else
          let cnt = if is_num c then int_opt c else None in
-         list_string hdr_string ((if byheight_fixed then Query.by_height_range_fixed else Query.by_height_range) s (z_of_string h) cnt)
+         list_string hdr_string (Query.by_height_range s (z_of_string h) cnt)
      | _ -> failwith "bad R")
   | "A" ->
     (match ids_of arg with
@@ -108,7 +106,7 @@ let model input =
 (* ---------- spec oracle on the implementation's answers ---------- *)
 (* classes of departures that are documented findings; used ONLY to order the report so that an
    undocumented failure in the same batch is never hidden behind a documented one *)
-let documented = ["ancestors-orphan-late-parent"; "common-ancestor-orphan-late-parent"; "by-height-int64-overflow"]
+let documented = ["ancestors-orphan-late-parent"; "common-ancestor-orphan-late-parent"]
 
 let status obs = match split_on ' ' obs with c :: _ -> (try int_of_string c with _ -> -1) | [] -> -1
 let is_4xx obs = let c = status obs in c >= 400 && c < 500
@@ -170,7 +168,7 @@ let spec_query (s : Store.store) (q : string) (obs : string) : (string * string)
              let cnt = if is_num c then int_opt c else None in
              if Query.by_height_ok s (z_of_string h) cnt rows then None
              else
-               (* height + count - 1 outside the 64-bit range: the Go sum wraps (documented finding) *)
+               (* height + count - 1 outside the 64-bit range: the class of the defect repaired by 76f1492 (a wrapping sum) *)
                let c' = if is_num c then Z.of_string c else Z.one in
                let e = Z.pred (Z.add (Z.of_string h) c') in
                let two63 = Z.shift_left Z.one 63 in
